@@ -343,6 +343,25 @@ theorem tie_eff_routineGroup : effX Programs.routineGroup = rgWaitEff ++ rgRunEf
 
 theorem tie_eff_guard : effX Programs.barrierGuard = guardEff := by decide
 
+/-- **Forwarded argument lists of the delegating entry points**: every public mr entry point hands ITS OWN `opts...`
+(unchanged, spread) down to where `buildOptions(opts...)` is called; `Finish` / `FinishVoid` ask for exactly
+`len(fns)` workers; `TimeoutLimit.TryBorrow/Return` delegate to the inner `Limit` without arguments; `Barrier.Guard`
+hands its own mutex and `fn` to `Guard`; `WorkerGroup.Start` runs `wg.job`; `MaxConnsHandler(n)` builds `NewLimit(n)`;
+`Walk` hands `fn` and the options it built to `walkLimited`. A dropped or replaced argument here is invisible to the
+site programs (mutation m4: `MapReduceVoid` without `opts...`). -/
+theorem tie_forwarding :
+    mrMapReduceFwd = ["source", "panicChan", "mapper", "reducer", "opts..."]
+    ∧ mrMapReduceChanFwd = ["source", "panicChan", "mapper", "reducer", "opts..."]
+    ∧ mrMapReduceVoidFwd = ["generate", "mapper", "func", "opts..."]
+    ∧ mrFinishFwd = ["func", "func", "func", "WithWorkers(len(fns))"]
+    ∧ mrFinishVoidFwd = ["func", "func", "WithWorkers(len(fns))"]
+    ∧ mrForEachFwd = ["opts..."] ∧ mrCoreFwd = ["opts..."]
+    ∧ tlTryBorrowFwd = [] ∧ tlReturnFwd = []
+    ∧ barrierGuardFwd = ["&b.lock", "fn"]
+    ∧ workerGroupFwd = ["wg.job"]
+    ∧ maxConnsNewLimitFwd = ["n"]
+    ∧ fxWalkLimitedFwd = ["fn", "option"] := by decide
+
 /-- `rescue.Recover(cleanups...)`: all clean-ups first, then `recover()` and the report (`report_after_cleanup`). -/
 theorem tie_rescue_order :
     rescueRecoverStmts = ["for _, cleanup := range cleanups { cleanup() }",
